@@ -49,6 +49,14 @@ VARIANT = {
 }
 
 
+PAIR_KERNEL = {
+    "x86": "vmulsd %xmm0, %xmm1, %xmm2\nvmovsd %xmm2, 8(%rsp)\naddq $16, %rsp\nvmovsd 8(%rsp), %xmm4\n"
+           "vaddsd %xmm4, %xmm4, %xmm5\nvaddsd %xmm5, %xmm5, %xmm6",
+    "aarch64": "fmul d2, d0, d1\nstr d2, [sp, #8]\nadd sp, sp, #16\nldr d4, [sp, #8]\nfadd d5, d4, d4\n"
+               "fadd d6, d5, d5",
+}
+
+
 @st.composite
 def sequences(draw, kernels):
     n = draw(st.integers(2, 10))
@@ -64,9 +72,30 @@ def sequences(draw, kernels):
             body[pos:pos] = VARIANT[isa][var].split("\n")
         base.append({"kernel": name, "isa": isa, "variant": var, "code": "\n".join(body) + "\n",
                      "archs": [draw(st.sampled_from(archs)) for _ in range(2)]})
+    if draw(st.integers(0, 2)) == 0:
+        # related pair: an analysis with write-back through the stack pointer, later one with sp arithmetic between a
+        # store and a load (state kept on shared operand objects would carry over), same ISA, possibly other models
+        isa = draw(st.sampled_from(["x86", "aarch64"]))
+        ks = [k for k in kernels if k[1] == isa]
+        archs = env.X86_ARCHS if isa == "x86" else env.A64_ARCHS
+        for var in ("stackwb", "stack"):
+            name, _, lines = draw(st.sampled_from(ks))
+            if var == "stack":
+                # small kernel whose critical path runs through the store / load pair: a dependency invented or lost
+                # between them is visible in the report
+                name, body = "stack-kernel", PAIR_KERNEL[isa].split("\n")
+            else:
+                body = list(lines)
+                pos = draw(st.integers(0, len(body)))
+                body[pos:pos] = VARIANT[isa][var].split("\n")
+            base.append({"kernel": name, "isa": isa, "variant": var, "code": "\n".join(body) + "\n",
+                         "archs": [draw(st.sampled_from(archs)) for _ in range(2)]})
+        order = [len(base) - 2, len(base) - 1] + [draw(st.integers(0, len(base) - 1)) for _ in range(max(0, n - 2))]
+    else:
+        order = [draw(st.integers(0, len(base) - 1)) for _ in range(n)]
     seq = []
-    for _ in range(n):
-        b = draw(st.sampled_from(base))
+    for bi in order:
+        b = base[bi]
         argv = ["--arch", draw(st.sampled_from(b["archs"])), "--lcd-timeout", "-1"]
         if draw(st.integers(0, 2)) == 0:
             argv.append("--fixed")
